@@ -22,7 +22,8 @@ Record Inv (s : sst) (h1 : list op) (tr1 : list (list obs)) : Prop := {
   I_own : forall c q, nthc s c = Some q -> q_own q = true -> In (ESent c w_TAKEOWNERSHIP) (concat tr1);
   I_none : s_decided s = None -> (forall x, ~ In (OExit x) h1) /\ ~ ok_fired (concat tr1);
   I_false : s_decided s = Some false -> ~ ok_fired (concat tr1);
-  I_true : s_decided s = Some true -> witness h1 tr1
+  I_true : s_decided s = Some true -> witness h1 tr1;
+  I_wait0 : s_wait0 s = true -> s_decided s = Some true
 }.
 
 Lemma fires_In w r es : In (w, r) (fires es) <-> In (EFired w r) es.
@@ -87,17 +88,18 @@ Definition flags_from (s : sst) (o : op) (es : list obs) (s' : sst) : Prop :=
 Ltac keepflags := split; [intros Ha; eexists; split; [eassumption|exact Ha]
                               | intros Ho; left; eexists; split; [eassumption|exact Ho]].
 
-Lemma absorb_flags es : forall s c q', nthc (absorb s es) c = Some q' ->
+Lemma absorb_flags cf es : forall s c q', nthc (absorb cf s es) c = Some q' ->
   (q_auth q' = true -> exists q, nthc s c = Some q /\ q_auth q = true) /\
   (q_own q' = true -> (exists q, nthc s c = Some q /\ q_own q = true) \/ In (ESent c w_TAKEOWNERSHIP) es).
 Proof.
   unfold absorb. induction es as [|e es IH]; intros s c q' H; cbn [fold_left] in H.
   - keepflags.
   - destruct (IH _ _ _ H) as [A B]. clear IH H.
-    assert (Step : forall q1, nthc (absorb1 s e) c = Some q1 ->
+    assert (Step : forall q1, nthc (absorb1 cf s e) c = Some q1 ->
               (q_auth q1 = true -> exists q, nthc s c = Some q /\ q_auth q = true) /\
               (q_own q1 = true -> (exists q, nthc s c = Some q /\ q_own q = true) \/ e = ESent c w_TAKEOWNERSHIP)).
     { intros q1 H1. destruct e; cbn [absorb1] in H1; try keepflags.
+      1:{ destruct (w =? 0); keepflags. }
       destruct (nthc s c0) as [q0|] eqn:N0; [|keepflags].
       rewrite nthc_upd_conn in H1. destruct (N.eqb c0 c) eqn:E.
       - apply N.eqb_eq in E. subst c0. rewrite N0 in H1. injection H1 as <-. cbn. split.
@@ -116,6 +118,9 @@ Proof. unfold decide. destruct (s_decided s); reflexivity. Qed.
 
 Lemma nthc_decide s b c : nthc (decide s b) c = nthc s c.
 Proof. unfold nthc. now rewrite decide_conns. Qed.
+
+Lemma nthc_decide_ok s c : nthc (decide_ok s) c = nthc s c.
+Proof. unfold nthc, decide_ok. destruct (s_decided s); reflexivity. Qed.
 
 Lemma effect_flags cf s o c q' : nthc (op_effect cf s o) c = Some q' ->
   (q_auth q' = true -> (exists q, nthc s c = Some q /\ q_auth q = true) \/ o = OBoot c true) /\
@@ -144,24 +149,36 @@ Proof.
     destruct (q_fifo q0) as [|cmd rest]; [apply Keep; exact H|].
     rewrite nthc_upd_conn in H. destruct (N.eqb c0 c) eqn:E; [|apply Keep; exact H].
     apply N.eqb_eq in E. subst c0. rewrite N0 in H. injection H as <-. cbn. split; intros X; [left|]; eauto.
-  - destruct ((p =? 100) && full_bootstrap s c0); [rewrite nthc_decide in H|]; apply Keep; exact H.
+  - destruct (s_att s =? 0); apply Keep; exact H.
+  - destruct ((p =? 100) && full_bootstrap s c0); [rewrite nthc_decide_ok in H|]; apply Keep; exact H.
   - destruct (s_timer s); [|apply Keep; exact H]. unfold nthc in H. cbn [s_conns] in H.
     rewrite decide_conns in H. apply Keep. exact H.
   - unfold nthc in H. cbn [s_conns] in H. rewrite decide_conns in H. apply Keep. exact H.
   - destruct (s_decided s); apply Keep; exact H.
 Qed.
 
-Lemma absorb_decided s es : s_decided (absorb s es) = s_decided s.
+Lemma absorb_decided cf s es : s_decided (absorb cf s es) = s_decided s.
 Proof.
   unfold absorb. revert s. induction es as [|e es IH]; intros s; [reflexivity|]. cbn [fold_left]. rewrite IH.
-  destruct e; cbn [absorb1]; try reflexivity. destruct (nthc s c); reflexivity.
+  destruct e; cbn [absorb1]; try reflexivity.
+  - destruct (w =? 0); reflexivity.
+  - destruct (nthc s c); reflexivity.
+Qed.
+
+(* the launch() result is only ever held back after a success *)
+Lemma absorb_wait0 cf s es : s_wait0 (absorb cf s es) = true -> s_wait0 s = true.
+Proof.
+  unfold absorb. revert s. induction es as [|e es IH]; intros s H; [exact H|]. cbn [fold_left] in H.
+  apply IH in H. destruct e; cbn [absorb1] in H; try exact H.
+  - destruct (w =? 0); [discriminate H|exact H].
+  - destruct (nthc s c); exact H.
 Qed.
 
 Lemma step_flags cf s o es c q' : nthc (spec_step cf s o es) c = Some q' ->
   (q_auth q' = true -> (exists q, nthc s c = Some q /\ q_auth q = true) \/ o = OBoot c true) /\
   (q_own q' = true -> (exists q, nthc s c = Some q /\ q_own q = true) \/ In (ESent c w_TAKEOWNERSHIP) es).
 Proof.
-  unfold spec_step. intros H. destruct (absorb_flags es _ _ _ H) as [A B]. split.
+  unfold spec_step. intros H. destruct (absorb_flags cf es _ _ _ H) as [A B]. split.
   - intros E. destruct (A E) as (q1 & N1 & A1). destruct (effect_flags cf s o c q1 N1) as [X _]. auto.
   - intros E. destruct (B E) as [(q1 & N1 & O1)|I]; [|right; exact I].
     destruct (effect_flags cf s o c q1 N1) as [_ X]. left. auto.
@@ -170,6 +187,9 @@ Qed.
 (* ---- who decides ---- *)
 Lemma decide_decided s b : s_decided (decide s b) = match s_decided s with Some x => Some x | None => Some b end.
 Proof. unfold decide. destruct (s_decided s) eqn:D; [exact D|reflexivity]. Qed.
+
+Lemma decide_ok_decided s : s_decided (decide_ok s) = match s_decided s with Some x => Some x | None => Some true end.
+Proof. unfold decide_ok. destruct (s_decided s) eqn:D; [exact D|reflexivity]. Qed.
 
 Lemma effect_decided cf s o :
   match s_decided s with
@@ -186,7 +206,8 @@ Proof.
     + destruct (s_npend s); exact D.
     + destruct (nthc s c); [destruct ok|]; exact D.
     + destruct (nthc s c) as [q|]; [destruct (q_fifo q)|]; exact D.
-    + destruct ((p =? 100) && full_bootstrap s c); [rewrite decide_decided, D; reflexivity|exact D].
+    + destruct (s_att s =? 0); exact D.
+    + destruct ((p =? 100) && full_bootstrap s c); [rewrite decide_ok_decided, D; reflexivity|exact D].
     + destruct (s_timer s); [cbn; rewrite decide_decided, D; reflexivity|exact D].
     + cbn. rewrite decide_decided, D. reflexivity.
     + rewrite D. exact D.
@@ -195,25 +216,47 @@ Proof.
     + destruct (s_npend s); left; exact D.
     + destruct (nthc s c); [destruct ok|]; left; exact D.
     + destruct (nthc s c) as [q|]; [destruct (q_fifo q)|]; left; exact D.
+    + destruct (s_att s =? 0); left; exact D.
     + destruct (p =? 100) eqn:P; cbn [andb]; [|left; exact D].
       destruct (full_bootstrap s c) eqn:F; [|left; exact D].
-      right. right. split; [rewrite decide_decided, D; reflexivity|]. apply N.eqb_eq in P. subst. eauto.
+      right. right. split; [rewrite decide_ok_decided, D; reflexivity|]. apply N.eqb_eq in P. subst. eauto.
     + destruct (s_timer s); [|left; exact D]. right. left. split; [cbn; rewrite decide_decided, D; reflexivity|auto].
     + right. left. split; [cbn; rewrite decide_decided, D; reflexivity|eauto].
     + rewrite D. left. reflexivity.
 Qed.
 
+Lemma effect_wait0 cf s o : s_wait0 (op_effect cf s o) = true ->
+  s_wait0 s = true \/ s_decided (op_effect cf s o) = Some true.
+Proof.
+  destruct o; cbn [op_effect]; intros H; try (left; exact H).
+  - destruct (s_tried s); left; exact H.
+  - destruct (s_npend s); left; exact H.
+  - destruct (nthc s c); [destruct ok|]; left; exact H.
+  - destruct (nthc s c) as [q|]; [destruct (q_fifo q)|]; left; exact H.
+  - destruct (s_att s =? 0); [left; exact H|]. cbn in H. apply andb_true_iff in H as [H _]. left. exact H.
+  - destruct ((p =? 100) && full_bootstrap s c); [|left; exact H].
+    unfold decide_ok in *. destruct (s_decided s); [left; exact H|right; reflexivity].
+  - destruct (s_timer s); [|left; exact H]. cbn in H. unfold decide in H. destruct (s_decided s); left; exact H.
+  - cbn in H. unfold decide in H. destruct (s_decided s); left; exact H.
+  - destruct (s_decided s); left; exact H.
+Qed.
+
 (* a success firing in a chunk the oracle accepts *)
-Lemma chunk_ok_fires cf s o es : chunk_ok cf s o es = true -> ok_fired es ->
+Lemma chunk_ok_fires cf s o es : (s_wait0 s = true -> s_decided s = Some true) ->
+  chunk_ok cf s o es = true -> ok_fired es ->
   s_decided s = Some true \/
   (s_decided s = None /\ exists k, o = OProgress k 100 /\ full_bootstrap s k = true).
 Proof.
-  unfold chunk_ok. intros H (w & Hw). apply andb_true_iff in H as [_ H].
+  unfold chunk_ok. intros W0 H (w & Hw). apply andb_true_iff in H as [_ H].
   assert (NF : no_fire (fires es) = true -> False) by (intros A; exact (no_fire_nil es A w ROk Hw)).
   assert (AF : forall ws, all_fire ws false (fires es) = true -> False).
   { intros ws A. pose proof (all_fire_res ws false es A w ROk Hw) as X. discriminate X. }
   destruct o;
     try (apply andb_true_iff in H as [_ H]; exfalso; exact (NF H)).
+  - (* OAttach: the launch() result that was held back *)
+    apply andb_true_iff in H as [_ H].
+    destruct (s_wait0 s) eqn:W; cbn [andb] in H; [|exfalso; exact (NF H)].
+    left. apply W0. reflexivity.
   - (* OProgress *)
     apply andb_true_iff in H as [_ H].
     destruct (p =? 100) eqn:P; cbn [andb] in H; [|exfalso; exact (NF H)].
@@ -245,7 +288,7 @@ Qed.
 
 Lemma progress_decides cf s k : s_decided s = None -> full_bootstrap s k = true ->
   s_decided (op_effect cf s (OProgress k 100)) = Some true.
-Proof. intros D F. cbn [op_effect]. rewrite N.eqb_refl, F. cbn [andb]. rewrite decide_decided, D. reflexivity. Qed.
+Proof. intros D F. cbn [op_effect]. rewrite N.eqb_refl, F. cbn [andb]. rewrite decide_ok_decided, D. reflexivity. Qed.
 
 Lemma sound_step cf s o es h0 tr0 :
   Inv s h0 tr0 -> chunk_ok cf s o es = true ->
@@ -265,7 +308,7 @@ Proof.
     - eapply I_auth; eauto.
     - eapply I_own; eauto. }
   assert (Fired : ok_fired es -> witness (h0 ++ [o]) (tr0 ++ [es])).
-  { intros OF. destruct (chunk_ok_fires cf s o es Ck OF) as [D|(D & k & E & F)].
+  { intros OF. destruct (chunk_ok_fires cf s o es (I_wait0 _ _ _ HI) Ck OF) as [D|(D & k & E & F)].
     - apply witness_app. apply (I_true _ _ _ HI D).
     - eapply W; eauto. }
   split; [|exact Fired].
@@ -281,20 +324,23 @@ Proof.
       destruct ED as [E|[(E & _)|(E & _)]]; cbn [op_effect] in *; try congruence.
       cbn in D'. rewrite decide_decided, D in D'. discriminate.
     + rewrite concat_snoc. intros OF. apply ok_fired_app in OF as [OF|OF]; [exact (NoF OF)|].
-      destruct (chunk_ok_fires cf s o es Ck OF) as [X|(_ & k & -> & F)]; [congruence|].
+      destruct (chunk_ok_fires cf s o es (I_wait0 _ _ _ HI) Ck OF) as [X|(_ & k & -> & F)]; [congruence|].
       rewrite (progress_decides cf s k D F) in D'. discriminate.
   - intros D'. rewrite Dn in D'. rewrite concat_snoc. intros OF. apply ok_fired_app in OF as [OF|OF].
     + destruct (s_decided s) as [[|]|] eqn:D.
       * congruence.
       * exact (I_false _ _ _ HI D OF).
       * destruct (I_none _ _ _ HI D) as [_ NoF]. exact (NoF OF).
-    + destruct (chunk_ok_fires cf s o es Ck OF) as [X|(D & k & -> & F)].
+    + destruct (chunk_ok_fires cf s o es (I_wait0 _ _ _ HI) Ck OF) as [X|(D & k & -> & F)].
       * rewrite X in ED. congruence.
       * rewrite (progress_decides cf s k D F) in D'. discriminate.
   - intros D'. rewrite Dn in D'. destruct (s_decided s) as [[|]|] eqn:D.
     + apply witness_app. apply (I_true _ _ _ HI D).
     + congruence.
     + destruct ED as [E|[(E & _)|(E & k & -> & F)]]; try congruence. eapply W; eauto.
+  - intros W0. rewrite Dn. unfold spec_step in W0. apply absorb_wait0 in W0.
+    destruct (effect_wait0 cf s o W0) as [A|A]; [|exact A].
+    rewrite (I_wait0 _ _ _ HI A) in ED. exact ED.
 Qed.
 
 Lemma Inv_init cf : Inv (s0 cf) [] [].
